@@ -399,7 +399,14 @@ class AWorld:
                     conn.contract.append('websocket.send bytes is %s' % type(b).__name__)
                 elif x is not None and not isinstance(x, str):
                     conn.contract.append('websocket.send text is %s' % type(x).__name__)
-                conn.sent.append((self.clock.now, x if x is not None else bytes(b or b'')))
+                if conn.failed:
+                    # the network path is dead: what the server writes now reaches nobody, and
+                    # the gateway says so (as uvicorn does with ClientDisconnected, an OSError;
+                    # the threaded world's WebSocket wrapper raises OSError as well)
+                    conn.lost = getattr(conn, 'lost', 0) + 1
+                    raise OSError('connection lost')
+                else:
+                    conn.sent.append((self.clock.now, x if x is not None else bytes(b or b'')))
             elif t == 'websocket.close':
                 if st['state'] == 'connecting':
                     conn.rejected = True
